@@ -31,6 +31,7 @@ class Ticket:
         self.result = None
         self.t_start = sim.now
         self.c_start = sim.tick()
+        self.c_enter = None
         self.t_end = None
         self.c_end = None
         self.proto = []          # gateway protocol violations
@@ -38,11 +39,17 @@ class Ticket:
         self.read_bytes = 0
         self.task = None
         self.ws = None
+        self.on_done = None
 
     def finish(self):
         self.done = True
         self.t_end = self.sim.now
         self.c_end = self.sim.tick()
+        if self.on_done is not None:
+            try:
+                self.on_done(self)
+            except Exception as e:      # harness error, surfaced by checks
+                self.sim.app_errors.append('on_done: %r' % (e,))
 
     @property
     def code(self):
